@@ -87,6 +87,8 @@ def r1(ctx, fs):
         pass
     s1 = DualSumm(fs, f, rw=dualise, subst=False)
     s2 = dual.Summ(fs, f, subst=False)
+    s1.alpha_scope(arms[0][1])
+    s2.alpha_scope(arms[1][1])
     c1, c2 = s1.term(arms[0][0]), s2.term(arms[1][0])
     p1, p2 = s1.paths(arms[0][1]), s2.paths(arms[1][1])
     diffs = ([] if c1 == c2 else ['arm conditions: dual(%s) vs %s' % (show(c1), show(c2))]) + dual.deep_diff(p1, p2)
@@ -112,6 +114,30 @@ def reason(which, v):
     return ('!', ('.', ('[]', ('.', 'th', 'c_bounds') if False else LRA + 'c_bounds', ('call', LRA + which + '_index', v)), 'reason'))
 
 
+def _lambda_param_to_v(t):
+    """the selection lambdas take one (variable, coefficient) pair: name that parameter `v` whatever it is called (it is the only X in `X.first`)."""
+    names = set()
+
+    def scan(x):
+        if isinstance(x, tuple):
+            if len(x) == 3 and x[0] == '.' and x[2] == 'first' and isinstance(x[1], str):
+                names.add(x[1])
+            for y in x:
+                scan(y)
+    scan(t)
+    if len(names) != 1:
+        return t
+    old = names.pop()
+
+    def ren(x):
+        if x == old:
+            return 'v'
+        if isinstance(x, tuple):
+            return tuple(ren(y) for y in x)
+        return x
+    return ren(t)
+
+
 def r2(ctx, fs):
     rid = 'C09.R2'
     ctx.rule(rid, 'primal explanations: check() value<lb arm pushes, for EVERY term (v,c) of the row, !reason(ub v) if c>0, !reason(lb v) if c<0, plus !reason(lb x_i), then fails; '
@@ -119,6 +145,8 @@ def r2(ctx, fs):
                   'the entering variable of the value<lb arm can move in the helpful direction', floor=6)
     f = fs.fn(LRA + 'check')
     env = LocalEnv(f)
+    env.local_role('x_i', lambda n, i: (n.get('t') or '').replace('const ', '') == 'unsigned long' and isinstance(i, tuple) and i[0] == '.' and i[-1] == 'first')      # the basic variable out of bounds
+    env.local_role('f_row', lambda n, i: (n.get('t') or '').replace('const ', '') in ('smt::row *', 'smt::row *const') and isinstance(i, tuple) and i[0] == '.' and i[-1] == 'second')
     # locate the explanation loop of the first arm
     found = None
     for n in f.nodes():
@@ -156,7 +184,8 @@ def r2(ctx, fs):
     # entering variable condition of arm 1
     lam = [x for x in f.nodes() if x.get('k') == 'LambdaExpr']
     rets = [m for m in walk(lam[1]) if m.get('k') == 'ReturnStmt'] if len(lam) >= 2 else []
-    t = canon(rets[0]['c'][0], None) if rets else None
+    t = canon(rets[0]['c'][0], env, subst=False) if rets else None
+    t = _lambda_param_to_v(t)
     st = show(t)
     ok = t is not None and t[0] == '||' and 'is_positive' in st and 'is_negative' in st and '(mcall lra_theory::ub this (. v first))' in st and '(mcall lra_theory::lb this (. v first))' in st
     if ok:
@@ -195,6 +224,10 @@ def r2(ctx, fs):
         raise AnalysisBroken('%s: positive-coefficient arm not found' % f.id)
     loop = [n for n in walk(arm) if n.get('k') == 'CXXForRangeStmt'][0]
     b = loop['slots']['var'].get('bindings') or [None, None]
+    accs = [m for m in walk(arm) if m.get('k') == 'VarDecl' and (m.get('t') or '') == 'smt::inf_rational' and not any(x is m for x in walk(loop))]
+    if len(accs) != 1:
+        raise AnalysisBroken('%s: the accumulator of the derived bound (one inf_rational local of the positive arm) was not found' % f.id)
+    env.rename[accs[0]['loc']] = 'lb'
     got = {}
     for p in enum_paths(loop['slots']['body']):
         conds = tuple((canon(c[1], env, subst=False), c[2]) for c in p.conds if c[0] == 'if')
